@@ -376,6 +376,33 @@ func genC03(r *Run) {
 			}
 		}
 	}
+	// ---- circuit descriptions for the relay-side extractor (ztpv6.ParseRemoteID reads the innermost relay's Remote-ID
+	// and Interface-ID): every single form and every ordered pair of forms (a string may match several of the
+	// extractor's patterns at once), joined by nothing, a comma or a space
+	{
+		forms := []string{"Ethernet3/5/1", "Ethernet51:100", "Ethernet7", "Ethernet1/2", "et-1/2/3.45", "ge-0/0/1:7", "", "Ethernet", "Ethernet9:", "Ethernet/1/2", "xe-0/1/2"}
+		var descs []string
+		for _, a := range forms {
+			descs = append(descs, a)
+			for _, b := range forms {
+				for _, j := range []string{"", ",", " "} {
+					descs = append(descs, a+j+b)
+				}
+			}
+		}
+		inner := append([]byte{1, 1, 2, 3}, tlvb(1, []byte{0, 3, 0, 1, 2, 0, 0, 0, 0, 1})...)
+		for i, d := range descs {
+			hdr := append([]byte{12, 0}, make([]byte, 32)...)
+			rid := tlvb(37, append(w32(uint32([]int{1271, 0, 30065}[i%3])), d...))
+			iid := tlvb(18, []byte(d))
+			v6try(append(append(append([]byte{}, hdr...), tlvb(9, inner)...), rid...))
+			v6try(append(append(append([]byte{}, hdr...), iid...), tlvb(9, inner)...))
+			if i%7 == 0 {
+				v6try(append(append(append(append([]byte{}, hdr...), rid...), iid...), tlvb(9, inner)...))
+			}
+		}
+		r.Count(fmt.Sprintf("circuit-descriptions=%d", len(descs)))
+	}
 	// ---- vendor strings for the provisioning extractors (ztpv4, ztpv6, netboot): every string literal found in their
 	// source on this run is a dictionary word; each is followed by 0..6 fields joined by each separator, and carried
 	// in the options those extractors read (DHCPv6 16, 17; DHCPv4 60, 43, 124, 125)
